@@ -97,13 +97,13 @@ func (f *Field) ComputeTables(add, mult bool, maxMem ...uint) (err error) {
 	if add && f.addTable == nil {
 		f.addTable, err = newTable(f, func(i, j uint) uint {
 			return (i + j) % f.char
-		})
+		}, maxMem...)
 	}
 
 	if mult && f.multTable == nil {
 		f.multTable, err = newTable(f, func(i, j uint) uint {
 			return (i * j) % f.char
-		})
+		}, maxMem...)
 	}
 
 	if err != nil {
